@@ -151,7 +151,7 @@ func privateHelperOf(w *World, g, f string, depth int) bool {
 
 // pairOrphan finds an unused entry that is the site o modulo a rename or an extraction.
 func pairOrphan(w *World, o Obligation, entries map[string]string, used func(string) bool, skip func(string) bool) (string, string) {
-	best := ""
+	best, renamed := "", ""
 	for _, canon := range []func(string) string{canonConstruct, canonLoose} {
 		want := canon(o.Construct)
 		for k := range entries {
@@ -163,11 +163,22 @@ func pairOrphan(w *World, o Obligation, entries map[string]string, used func(str
 				continue
 			}
 			if !privateHelperOf(w, o.Func, fn, 0) {
+				// the entry's function no longer exists (renamed — the tree has its share of
+				// misspelt names a tidy-up would fix — or dissolved): the site may be its heir
+				if funcExists(w, fn) || !samePackage(fn, o.Func) {
+					continue
+				}
+				if renamed == "" || k < renamed {
+					renamed = k
+				}
 				continue
 			}
 			if best == "" || k < best {
 				best = k
 			}
+		}
+		if best == "" && renamed != "" {
+			best = renamed
 		}
 		if best != "" {
 			break
@@ -180,6 +191,9 @@ func pairOrphan(w *World, o Obligation, entries map[string]string, used func(str
 	how := "the same site under other local names"
 	if fn != o.Func {
 		how = "the reviewed statement of " + fn + ", moved into a helper only that function calls"
+		if !funcExists(w, fn) {
+			how = "the reviewed statement of " + fn + ", a function that no longer exists under that name"
+		}
 	}
 	return best, how
 }
@@ -228,4 +242,29 @@ func reconcileReviewed(w *World, engine string, res *EngineResult) {
 		}
 		res.Notes = kept
 	}
+}
+
+
+func funcExists(w *World, key string) bool {
+	for _, fn := range w.Funcs {
+		if fnKey(fn) == key {
+			return true
+		}
+	}
+	// package-level anchors ("lexer", "builtin.init") are not functions: they always exist
+	return !strings.Contains(key, ".") || strings.HasSuffix(key, ".init")
+}
+
+// samePackage: the two function keys name functions of one package.
+func samePackage(a, b string) bool {
+	pk := func(k string) string {
+		if i := strings.Index(k, ".("); i >= 0 {
+			return k[:i]
+		}
+		if i := strings.LastIndex(k, "."); i >= 0 {
+			return k[:i]
+		}
+		return k
+	}
+	return pk(a) == pk(b)
 }
